@@ -65,13 +65,23 @@ Section IO.
       VDict (map (fun kv => match fst kv with VStr k => (VStr (str_replace "path" "\path" k), snd kv) | _ => kv end) d)
     else VDict d.
 
+  (* deeper than from_spec looks, only plain data can be written: no type objects, no data paths / other objects *)
+  Fixpoint deep_plain (v : pyval) : bool :=
+    match v with
+    | VType _ | VObj _ => false
+    | VList l | VTuple l => forallb deep_plain l
+    | VDict d => forallb (fun kv => deep_plain (snd kv)) d
+    | _ => true
+    end.
+
   Definition item_to_json (cast_types : bool) (v : pyval) : res pyval :=
     match v with
     | VType t =>   (* a type without a spec name, or where names are not read back, is refused *)
         if cast_types then match assoc_ty t (sx_inv_dtype X) with Some n => Ok (VStr n) | None => Err TypeError end
         else Err TypeError
     | VStr _ => if cast_types then Err TypeError else Ok v   (* from_spec reads every string there as a type name *)
-    | VDict d => Ok (escape_map d)
+    | VDict d => if forallb (fun kv => deep_plain (snd kv)) d then Ok (escape_map d) else Err TypeError
+    | VList l | VTuple l => if forallb deep_plain l then Ok v else Err TypeError
     | VObj _ => Err OtherExc          (* an object inside a literal: not modelled *)
     | _ => Ok v
     end.
@@ -80,7 +90,7 @@ Section IO.
     match v with
     | VList l | VTuple l => let* l' := mapM (item_to_json cast_types) l in Ok (VList l')
     | VDict d =>
-        if has_path_key d then Ok (escape_map d)
+        if has_path_key d then (if forallb (fun kv => deep_plain (snd kv)) d then Ok (escape_map d) else Err TypeError)
         else let* d' := mapM (fun kv => let* x := item_to_json cast_types (snd kv) in Ok (fst kv, x)) d in Ok (VDict d')
     | _ => item_to_json cast_types v
     end.
@@ -89,6 +99,13 @@ Section IO.
     Variable A : Type.
     Variable arg_to_json : bool -> A -> res pyval.
     Variable arg_raw : A -> res pyval.          (* the argument as it is (deep-copied) *)
+
+    (* an argument written as an item: a literal at item level, a data path as its spec *)
+    Definition arg_item (cast_types : bool) (a : A) : res pyval :=
+      match arg_raw a with
+      | Ok v => item_to_json cast_types v
+      | Err _ => arg_to_json cast_types a
+      end.
 
     Definition leaf_to_json (l : leaf A) : res pyval :=
       if is_null_leaf l then Ok (VDict []) else
@@ -107,9 +124,10 @@ Section IO.
               | [] => Err IndexError
               end
             else if (1 <? npk)%nat && negb va && negb kw then
+              (* several parameters: each argument is a VALUE of the mapping from_spec receives: written at item level *)
               let* items := (fix go (kws : list (string * A)) : res (list (pyval * pyval)) := match kws with
                                | [] => Ok []
-                               | (k', a) :: r => let* x := arg_to_json cast_types a in let* r' := go r in Ok ((VStr k', x) :: r') end)
+                               | (k', a) :: r => let* x := arg_item cast_types a in let* r' := go r in Ok ((VStr k', x) :: r') end)
                               (l_kwargs l) in
               Ok (VDict items)
             else if kw && negb va then
@@ -125,16 +143,12 @@ Section IO.
                    a literal mapping is escaped, a data path written as its spec *)
                 let* items := (fix go (kws : list (string * A)) : res (list (pyval * pyval)) := match kws with
                                  | [] => Ok []
-                                 | (k', a) :: r =>
-                                     let* x := match arg_raw a with
-                                               | Ok v => item_to_json cast_types v
-                                               | Err _ => arg_to_json cast_types a
-                                               end in
-                                     let* r' := go r in Ok ((VStr k', x) :: r') end)
+                                 | (k', a) :: r => let* x := arg_item cast_types a in let* r' := go r in Ok ((VStr k', x) :: r') end)
                                 (l_kwargs l) in
                 Ok (VDict items)
             else if va && (npk =? 0)%nat && negb kw then
-              let* items := mapM (arg_to_json cast_types) (l_args l) in Ok (VList items)
+              (* *args: each argument is an ITEM of the list from_spec receives *)
+              let* items := mapM (arg_item cast_types) (l_args l) in Ok (VList items)
             else Err NotImplementedError in
           Ok (VDict [(VStr key, v)])
       | _, _ => Err AttributeError
